@@ -662,12 +662,28 @@ func (c *Ctx) seqReplace() {
 				if !known || v != stored {
 					problems = append(problems, "the success flag does not tell whether the slot was written")
 				}
+				// completeness: nothing is written only when the index addresses no existing position
+				// (or there is no stack at all); every position 0..Len-1 can be replaced
+				if !stored {
+					if nn, kn := fa.nonNil(s, fn.Params[0]); kn && !nn {
+						continue
+					}
+					h := c.entryHeader(fn)
+					pr := c.newProver(fa, s)
+					for _, v2 := range sv {
+						pr.stackLen(v2)
+					}
+					L := c.plusT(c.lenT(h), c.intConst(-1))
+					if !(pr.lt(i, c.intConst(0)) || pr.le(L, i)) {
+						problems = append(problems, "Replace can refuse an index that addresses an existing position (a non-storing path is not confined to i < 0 or i >= Len)")
+					}
+				}
 			}
 		}
 	} else {
 		problems = append(problems, "unexpected signature")
 	}
-	c.seqReport(fn, "list operation", problems, n, "one element store of the argument at slot i+1; no header store; the flag is true exactly when the store happened")
+	c.seqReport(fn, "list operation", problems, n, "one element store of the argument at slot i+1 for exactly the indices 0..Len-1; no header store; the flag is true exactly when the store happened")
 }
 
 func (c *Ctx) hdrStoresIn(fn *ssa.Function) int {
@@ -963,6 +979,21 @@ func (c *Ctx) lowerStartsAtOneStepOne(fa *FnAnalysis, fn *ssa.Function, hdr *ssa
 // ---- push loops: ascending, one step, one argument per iteration
 
 func (c *Ctx) seqPushLoops() {
+	// the worker hands the batch it was given to the append loops, untouched
+	if fn := c.anchor("R-SEQ", "(*stack).push"); fn != nil {
+		var problems []string
+		xs := ssa.Value(fn.Params[len(fn.Params)-1])
+		calls := c.findCalls(fn, "(*stack).genericAppend", "(*stack).methodAppend")
+		if len(calls) < 2 {
+			problems = append(problems, "the two append loops are not both called")
+		}
+		for _, call := range calls {
+			if a := call.Call.Args[len(call.Call.Args)-1]; a != xs {
+				problems = append(problems, c.p.instrPos(call)+": the batch handed to "+c.calleeName(&call.Call)+" is not the batch push received (it was re-sliced, spread or replaced on the way)")
+			}
+		}
+		c.seqReport(fn, "batch forwarded", problems, len(calls), "genericAppend / methodAppend receive push's own variadic argument")
+	}
 	for _, name := range []string{"(*stack).genericAppend", "(*stack).methodAppend"} {
 		fn := c.anchor("R-SEQ", name)
 		if fn == nil {
@@ -1384,6 +1415,7 @@ func (c *Ctx) ruleSeq() {
 	c.seqPushLoops()
 	c.seqIndex()
 	c.seqWrappers()
+	c.seqFrontBack()
 }
 
 // knownBool: the Boolean value of v in state s, if determined.
@@ -1756,5 +1788,153 @@ func (c *Ctx) ruleIndexLemma() {
 		c.rep.ok("R-INV", "stack.index", "found position in range", pos, fmt.Sprintf("on all %d return path states that may report found, 1 <= position < len(header)", n))
 	} else {
 		c.rep.ok("R-INV", "stack.index", "found position in range", pos, "lemma not established on this tree; not used")
+	}
+}
+
+// ---- Front / Back: the nil-skipping scans
+
+// seqFrontBack: Front and Back scan the positions through Index, from the end
+// their mode names, over the whole range 0..Len-1, and stop at the first
+// position Index reports as found.  (Front: FIFO scans upwards from 0, LIFO
+// downwards from Len-1; Back the other way round.)
+func (c *Ctx) seqFrontBack() {
+	for _, spec := range []struct {
+		name   string
+		upFIFO bool // the upward scan belongs to FIFO mode
+	}{{"Stack.Front", true}, {"Stack.Back", false}} {
+		fn := c.anchor("R-SEQ", spec.name)
+		if fn == nil {
+			continue
+		}
+		fa := c.eng.analyze(fn, nil)
+		pos := c.p.pos(fn.Pos())
+		var problems []string
+		isLenCall := func(v ssa.Value) bool {
+			call, ok := v.(*ssa.Call)
+			return ok && c.calleeName(&call.Call) == "Stack.Len"
+		}
+		nUp, nDown := 0, 0
+		for hdr, blocks := range fa.loopOf {
+			var idxCalls []*ssa.Call
+			for b := range blocks {
+				for _, in := range b.Instrs {
+					if call, ok := in.(*ssa.Call); ok && c.calleeName(&call.Call) == "Stack.Index" {
+						idxCalls = append(idxCalls, call)
+					}
+				}
+			}
+			if len(idxCalls) != 1 {
+				problems = append(problems, fmt.Sprintf("a scan loop makes %d position lookups per round, expected one", len(idxCalls)))
+				continue
+			}
+			ic := idxCalls[0]
+			a := ic.Call.Args[1]
+			phi := c.rootPhi(a, hdr)
+			if phi == nil {
+				problems = append(problems, "the position looked up is not the loop counter (plus a constant)")
+				continue
+			}
+			// offset k: a = phi + k
+			k := int64(0)
+			for x := a; ; {
+				bo, ok := x.(*ssa.BinOp)
+				if !ok {
+					break
+				}
+				d, _ := constIntOf(bo.Y)
+				if bo.Op == token.SUB {
+					d = -d
+				}
+				k += d
+				x = bo.X
+			}
+			init, step, okS := c.phiInitStep(phi, hdr)
+			iff, _ := hdr.Instrs[len(hdr.Instrs)-1].(*ssa.If)
+			var cond *ssa.BinOp
+			if iff != nil {
+				cond, _ = iff.Cond.(*ssa.BinOp)
+			}
+			if !okS || cond == nil || cond.X != ssa.Value(phi) {
+				problems = append(problems, "the scan loop is not a counter compared with a bound in its header")
+				continue
+			}
+			up := false
+			switch {
+			case step == 1:
+				up = true
+				nUp++
+				c0, isC := constIntOf(init)
+				if !isC || c0+k != 0 || cond.Op != token.LSS || !isLenCall(cond.Y) || k != 0 {
+					problems = append(problems, "the upward scan does not visit positions 0,1,...,Len-1")
+				}
+			case step == -1:
+				nDown++
+				// init = Len() (+ const)
+				cinit := int64(0)
+				base := init
+				if bo, ok := init.(*ssa.BinOp); ok {
+					if d, okc := constIntOf(bo.Y); okc && (bo.Op == token.ADD || bo.Op == token.SUB) {
+						if bo.Op == token.SUB {
+							d = -d
+						}
+						cinit, base = d, bo.X
+					}
+				}
+				e, isC := constIntOf(cond.Y)
+				last := int64(1 << 40)
+				switch cond.Op {
+				case token.GTR:
+					last = e + 1 + k
+				case token.GEQ:
+					last = e + k
+				}
+				if !isLenCall(base) || cinit+k != -1 || !isC || last != 0 {
+					problems = append(problems, "the downward scan does not visit positions Len-1,...,1,0 (the first or the last position is left out)")
+				}
+			default:
+				problems = append(problems, "the scan counter does not step by one")
+				continue
+			}
+			// mode: which scan runs in which mode
+			for _, s := range fa.statesBefore(ic) {
+				fifoKnown, fifo := false, false
+				for _, fc := range c.findCalls(fn, "Stack.IsFIFO") {
+					if v, kn := fa.knownTerm(s, aTR, fa.term(s, fc)); kn {
+						fifoKnown, fifo = true, v
+					}
+				}
+				if !fifoKnown || fifo != (up == spec.upFIFO) {
+					problems = append(problems, "a scan runs in the wrong mode (or the mode is not decided where it runs)")
+				}
+			}
+			// exits: by the header test, or with the position found
+			for bi, succs := range fa.edgeOut {
+				if !blocks[bi] || bi == hdr {
+					continue
+				}
+				for j, sb := range bi.Succs {
+					if blocks[sb] || j >= len(succs) {
+						continue
+					}
+					for _, s := range succs[j] {
+						if s.dead {
+							continue
+						}
+						if v, kn := fa.knownTerm(s, aTR, fa.callResultTerm(s, ic, 1)); !kn || !v {
+							problems = append(problems, "the scan can be left before the last position without a position having been found")
+						}
+					}
+				}
+			}
+		}
+		if nUp != 1 || nDown != 1 {
+			problems = append(problems, fmt.Sprintf("expected one upward and one downward scan, found %d and %d", nUp, nDown))
+		}
+		if len(problems) == 0 {
+			c.rep.ok("R-SEQ", spec.name, "scan", pos, "one upward scan 0..Len-1 and one downward scan Len-1..0, each in its mode, each left only past the last position or with a position found")
+		} else {
+			sort.Strings(problems)
+			c.rep.bad("R-SEQ", spec.name, "scan", pos, strings.Join(uniq(problems), "; "))
+		}
 	}
 }
